@@ -61,6 +61,7 @@ class Run:
         self.rule = ""
         self.exhaustive = None
         self.known_printed = []
+        self.unreproduced = []   # violations of replayed histories that did not show again on a second, isolated replay
 
     # ---------------------------------------------------------------- TLC
     def tlc(self, module, cfg, workers=8, heap="6g", timeout=1800, simulate=None, depth=None,
@@ -180,6 +181,37 @@ class Run:
             raise Inconclusive("driver %s died rc=%d\n%s" % (test, rc, out[-4000:]))
         return out
 
+    def confirm(self, binary, test, env, viols, tag, case_of=None):
+        """Second look at violations found by replaying generated histories: the histories concerned are replayed alone, in a
+        fresh process.  Returns the violations that show again; the others go to self.unreproduced (they make the run
+        inconclusive, never red: a verdict comes only from behaviour of the real code that can be shown again)."""
+        case_of = case_of or (lambda v: {"hist": v["history"]})
+        hv = [v for v in viols if isinstance(v.get("history"), list)]
+        if not hv:
+            return viols
+        key = lambda v: json.dumps(case_of(v), sort_keys=True)
+        lines = sorted({key(v) for v in hv})
+        cases = os.path.join(self.work, "confirm_%s.ndjson" % tag)
+        with open(cases, "w") as fh:
+            fh.write("\n".join(lines) + "\n")
+        outp = os.path.join(self.work, "confirm_%s_out.txt" % tag)
+        e = dict(env or {})
+        e.update({"VERIF_CASES": cases, "VERIF_OUT": outp})
+        self.drive(binary, test, env=e, timeout=1800, tag="_confirm_" + tag)
+        again = set()
+        for line in open(outp):
+            t, _, js = line.partition(" ")
+            if t == "V":
+                v2 = json.loads(js)
+                if isinstance(v2.get("history"), list):
+                    again.add(key(v2))
+        keep = [v for v in viols if not isinstance(v.get("history"), list) or key(v) in again]
+        lost = [v for v in hv if key(v) not in again]
+        if lost:
+            log("[confirm] %s: %d of %d history violations did not show again in isolation" % (tag, len(lost), len(hv)))
+        self.unreproduced += lost
+        return keep
+
     # ---------------------------------------------------------------- results
     def sample(self, rec, limit=5):
         if len(self.samples) < limit:
@@ -208,6 +240,13 @@ class Run:
         for kid, (k, n) in sorted(known_hits.items()):
             print("KNOWN-FINDING: property=%s %s [%s; %d case(s) this run]" % (self.pid, k["what"], kid, n))
         rc = 0
+        if not fresh and self.unreproduced:
+            os.makedirs(os.path.join(VERIF, "replays", self.pid), exist_ok=True)
+            path = os.path.join(VERIF, "replays", self.pid, "unreproduced.json")
+            with open(path, "w") as fh:
+                json.dump(self.unreproduced[:5], fh, indent=1)
+            raise Inconclusive("%d violation(s) seen while replaying generated histories did not show again when the same histories were "
+                               "replayed alone in a fresh process (first ones written to %s): no verdict" % (len(self.unreproduced), path))
         if fresh:
             rc = 1
             os.makedirs(os.path.join(VERIF, "replays", self.pid), exist_ok=True)
